@@ -49,9 +49,9 @@ ERRORISH = ('refused', 'timeout', 'close', 'bad_marker', 'bad_len', 'bad_type', 
 def pick(enabled, choice):
     weighted = []
     for ev in enabled:
-        if ev[0] == 'stop':
-            continue
         w = 2
+        if ev[0] == 'stop':
+            w = 1      # an operator stop is part of the history as long as the operator starts the peer again
         if ev[0] == 'open' and ev[1] in ('h0', 'h1', 'h2', 'h3', 'badver', 'badas'):
             w = 4
         elif ev[0] in ('ok', 'tick'):
@@ -67,6 +67,19 @@ def nontrivial(events):
         if ev[0] in ERRORISH or (ev[0] == 'open' and ev[1] in ('badver', 'badas', 'h1', 'h2')):
             return True
     return False
+
+
+def operator_start(d):
+    """the property speaks about a peer the operator has not stopped: if the last operator command of the history was a
+    stop, the operator starts the peer again before the cooperative phase (our own record, not the agent's flag)"""
+    last = None
+    for ev in d.history:
+        if ev[0] in ('stop', 'start'):
+            last = ev[0]
+    if last == 'stop':
+        d.sim.manual_start()
+        d.sim.reactor.settle(fire_due=True)
+        d.history.append(['start'])
 
 
 def handover(d, cfg):
@@ -140,6 +153,7 @@ def run_case(case):
     for ch in case['choices']:
         d.apply(pick(d.enabled(), ch))
     res = [f for f in d.failures if f[0].startswith(('escaped', 'livelock'))]
+    operator_start(d)
     res += handover(d, cfg)
     return d, res
 
@@ -153,6 +167,7 @@ def run_explicit(case):
             return d, []
         d.apply(list(ev))
     res = [f for f in d.failures if f[0].startswith(('escaped', 'livelock'))]
+    operator_start(d)
     res += handover(d, cfg)
     return d, res
 
